@@ -164,7 +164,10 @@ def run(prop, tier, seed, replay=None):
         states = trans = 1
         minfo = []
     else:
-        states, trans, minfo = design_models(prop, tier, wd)
+        if os.environ.get("VERIF_NO_MODEL"):
+            states, trans, minfo = 1, 1, []
+        else:
+            states, trans, minfo = design_models(prop, tier, wd)
         recs = []
         for i, (profile, traces, steps) in enumerate(PLANS[prop][tier]):
             recs.append(record(bindir, wd, profile, seed + i, traces, steps))
